@@ -201,6 +201,7 @@ def gen_case(labels, cfg):
     r = _real_random.Random(derive(*labels, "case"))
     k = S.Knobs(r, no_clock=True, allow_ops=True)
     k.p_regex = r.choice((0.0, 0.3, 0.6, 0.9))
+    k.p_regex_unsup = r.choice((0.0, 0.0, 0.3))
     k.p_value = r.choice((0.0, 0.1))
     if "str" not in k.types and r.random() < 0.7:
         k.types.add("str")
